@@ -31,7 +31,7 @@ META = {
     "design_ref": "7/C39",
     "shards": {"quick": 2, "thorough": 16},
     "budget_s": {"quick": 70, "thorough": 330},
-    "min_evals": {"quick": 1000, "thorough": 100000},
+    "min_evals": {"quick": 1000, "thorough": 40000},
     "min_nontrivial": 200,
     "deciding": ["jp.compute_vjp", "jp.compute_jvp", "jp.vjp_tape", "jp.jvp_tape", "jp.classical_jacobian"],
     "rule": "random (measurement shapes, #parameters, shots, zero pattern, dtype/container/interface) → explicit Jacobian + (co)tangent; "
@@ -341,8 +341,30 @@ def run(ctx):
             descr.append({"P": P, "shots": shots, "measurement_shapes": shapes, "measurements": [repr(m) for m in tape.measurements],
                           "zero_dy": zm_v, "zero_tangent": zm_j, "dy": dyc, "tangent": tg, "J": J})
 
+        # The gradient transform hands back dummy gradient tapes (distinct objects carrying tokens) and a processing function
+        # that insists on receiving exactly ITS tokens, in order: this monitors the result slicing of batch_vjp / batch_jvp.
+        token_of, n_dummy, misrouted = {}, {}, []
+
         def gradient_fn(tape, **kwargs):
-            return [], (lambda results: grads[id(tape)])
+            n = n_dummy.setdefault(id(tape), int(rng.integers(0, 4)))
+            dummies = [tape.copy() for _ in range(n)]
+            mine = []
+            for j, dtape in enumerate(dummies):
+                token_of[id(dtape)] = ("token", "tape%d" % [id(t) for t in tapes].index(id(tape)), j, len(token_of))
+                mine.append(token_of[id(dtape)])
+            keep.extend(dummies)
+
+            def post(results):
+                if list(results) != mine:
+                    misrouted.append((mine, list(results)))
+                return grads[id(tape)]
+            return dummies, post
+
+        keep = []
+
+        def run_fn(g_tapes, fn, **kw):
+            """'execute' the gradient tapes: every tape is answered with its token"""
+            return fn([token_of[id(tp)] for tp in g_tapes], **kw)
 
         case = {"tapes": descr}
         cls_parts = sorted({("shotvec" if isinstance(d["shots"], tuple) else "noshotvec") + ":" + ("P0" if d["P"] == 0 else "P+") for d in descr})
@@ -368,7 +390,7 @@ def run(ctx):
             ctx.ev("jp.vjp_tape")
             try:
                 g_tapes, fn = vjp(tapes[t], dys[t], gradient_fn)
-                got = fn([])
+                got = run_fn(g_tapes, fn)
                 if refs_v[t] is None:
                     diff = None if got is None else f"expected None for a tape without trainable parameters, got {got!r}"
                 else:
@@ -384,7 +406,7 @@ def run(ctx):
             ctx.ev("jp.jvp_tape")
             try:
                 g_tapes, fn = jvp(tapes[t], tgs[t], gradient_fn)
-                got = to_np(fn([]))
+                got = to_np(run_fn(g_tapes, fn))
                 diff = same(np, got, refs_j[t], 1e-9)
             except Exception as e:  # noqa: BLE001
                 diff = f"raised {type(e).__name__}: {e}"
@@ -396,7 +418,7 @@ def run(ctx):
         ctx.ev("jp.vjp_tape")
         try:
             g_tapes, fn = batch_vjp(tapes, dys, gradient_fn, reduction=red)
-            got = fn([])
+            got = run_fn(g_tapes, fn)
             if red == "append":
                 exp = refs_v
                 diff = None
@@ -423,7 +445,7 @@ def run(ctx):
         ctx.ev("jp.jvp_tape")
         try:
             g_tapes, fn = batch_jvp(tapes, tgs, gradient_fn, reduction="append")
-            got = to_np(fn([]))
+            got = to_np(run_fn(g_tapes, fn))
             diff = same(np, got, tuple(refs_j), 1e-9)
         except Exception as e:  # noqa: BLE001
             diff = f"raised {type(e).__name__}: {e}"
@@ -434,6 +456,10 @@ def run(ctx):
             except Exception:  # noqa: BLE001
                 bad = descr[0]
             ctx.violation("jp.jvp_tape", f"batch_jvp({nt} tapes): {diff}", case=case, mech=classify(bad, "jvp", diff), expected=list(refs_j))
+        ctx.ev("jp.vjp_tape")
+        if misrouted:
+            ctx.violation("jp.vjp_tape", f"a processing function received results that are not the results of its own gradient tapes: expected tokens "
+                          f"{misrouted[0][0]}, received {misrouted[0][1]} ({nt} tapes)", case=case, mech="batch:result-slicing")
 
     # ---- targeted: probs() without wires and the zero-tangent shortcut
     def probs_all_wires_case(rng):
@@ -576,7 +602,7 @@ def run(ctx):
                           mech=f"classical_jacobian:{iface}:argnum={type(argnum).__name__}", expected=ref)
 
     # ====================================================================================== drive
-    N = ctx.n(1200, 100000)
+    N = ctx.n(800, 40000)
     for k in range(N):
         i = ctx.shard + k * ctx.nshards
         if ctx.only_case is not None and i != ctx.only_case:
